@@ -222,3 +222,110 @@ func TestC19ClosedSession(t *testing.T) {
 		}
 	})
 }
+
+// TestC19OneSidedFEC: FEC at one end only (the other end creates a decoder
+// lazily when the first FEC packet arrives). The end without FEC must keep
+// refusing the out-of-band calls for the whole life of the connection - an
+// OOB packet it let through would go out without the OOB frame and be parsed
+// by the peer as stream segments - while the end with FEC may send OOB
+// messages, which must not disturb the stream towards the end without a
+// handler. The stream in both directions stays under the C01 content oracle.
+func TestC19OneSidedFEC(t *testing.T) {
+	rec := hx.NewRecorder(t)
+	rapid.Check(t, func(rt *rapid.T) {
+		cfg := drawPairCfg(rt, pairGenOpts{FECMode: 1})
+		noFEC := rapid.IntRange(0, 1).Draw(rt, "endWithoutFEC")
+		cfg.FEC[noFEC] = [2]int{0, 0}
+		excluded := false
+		if hx.IsKnown(c16KeyNonOriginal) && cfg.FEC[1-noFEC] != [2]int{1, 1} {
+			// listed finding (C16): until the lazily created 1/1 decoder has adopted
+			// the sender's ratio it "recovers" Reed-Solomon combinations of genuine
+			// packets, and with equal header fields (conversation id 0, say) such a
+			// combination passes the core's checks and corrupts the stream. Not the
+			// subject here: the end with FEC uses the ratio the lazy decoder starts with.
+			cfg.FEC[1-noFEC] = [2]int{1, 1}
+			excluded = true
+		}
+		fs := sim.DrawFateScript(rt, sim.FateOpts{MaxExplicit: 8, MaxRegimes: 2, MaxRegLen: 80, MaxDelay: 300, MaxLossPm: 150})
+		app := drawSessApps(rt, pairMSS(cfg), 15, 50_000)
+		if cfg.Listener && len(app[0].Writes) == 0 {
+			app[0].Writes = []int{1}
+		}
+		if len(app[1-noFEC].Writes) == 0 {
+			app[1-noFEC].Writes = []int{100, 2000} // the end with FEC must send something for the other to see FEC packets
+		}
+		every := rapid.IntRange(1, 4).Draw(rt, "every")
+		refusedAfterFEC, oobFromFECEnd := 0, 0
+		completed := false
+		rapid.SyncTest(rt, func(rt *rapid.T) {
+			s := sim.NewSessSim(cfg.ClockOff, cfg.EntropySeed)
+			p, err := sim.NewPair(s, cfg, app)
+			if err != nil {
+				rt.Fatalf("setup: %v", err)
+			}
+			defer p.Finish(nil)
+			setPairLinks(s, p, fs)
+			reads := 0
+			p.OnRead = func(r, n int, err error) {
+				reads++
+				if reads%every != 0 {
+					return
+				}
+				x := p.Sess[noFEC]
+				if x == nil {
+					return
+				}
+				seenFEC := x.VerifFEC().HasDecoder
+				payload := wire.Segment{Conv: cfg.Conv, Cmd: wire.CmdPush, Wnd: 32, Sn: uint32(reads), Data: []byte("EVIL!")}.Append(nil)
+				if err := x.SendOOB(payload); err == nil {
+					s.Fail("SendOOB accepted at the end without FEC (its peer uses FEC; FEC packets seen so far: %v)", seenFEC)
+					return
+				}
+				if err := x.SetOOBHandler(func([]byte) {}); err == nil {
+					s.Fail("SetOOBHandler accepted at the end without FEC (FEC packets seen so far: %v)", seenFEC)
+					return
+				}
+				if m := x.GetOOBMaxSize(); m != 0 {
+					s.Fail("GetOOBMaxSize() = %d at the end without FEC (FEC packets seen so far: %v)", m, seenFEC)
+					return
+				}
+				if seenFEC {
+					refusedAfterFEC++
+				}
+				if y := p.Sess[1-noFEC]; y != nil && reads%(2*every) == 0 {
+					if y.SendOOB([]byte("ping from the end with FEC")) == nil {
+						oobFromFECEnd++
+					}
+				}
+			}
+			err = runPairUntilComplete(p, s, fs.EndTime(), 0, cfg.Opts[0].Interval+cfg.Opts[1].Interval)
+			if err == errScriptUnfinished {
+				rec.Class("script_unfinished_inconclusive", 1)
+				err = nil
+			}
+			completed = p.Complete()
+			if err != nil {
+				rt.Fatalf("C19 (FEC at end %d only): %v\ncase: %+v", 1-noFEC, err, describePair(cfg, fs, app))
+			}
+		})
+		cl := []string{"cipher_" + cfg.Cipher}
+		if refusedAfterFEC > 0 {
+			cl = append(cl, "refused_after_fec_packets_had_arrived")
+		}
+		if oobFromFECEnd > 0 {
+			cl = append(cl, "oob_sent_towards_the_end_without_fec")
+		}
+		if completed {
+			cl = append(cl, "completed")
+		}
+		if excluded {
+			rec.Exclude(c16KeyNonOriginal)
+		}
+		rec.Case(hx.Hash64(describePair(cfg, fs, app), noFEC, every), refusedAfterFEC > 0, cl...)
+		if rec.WantSample() {
+			dd := describePair(cfg, fs, app)
+			dd["end_without_fec"], dd["refusals_after_fec_seen"], dd["oob_from_fec_end"] = noFEC, refusedAfterFEC, oobFromFECEnd
+			rec.Sample(dd)
+		}
+	})
+}
